@@ -622,6 +622,17 @@ pub fn deep_chain_facts(depth: u32, mult: u32, recs: u32, shortcut_every: u32) -
             f.ann_calls.push(AnnCall { kind: kind as u8, rec: r, term: Some(t), alt_name: None });
             f.recs[kind as usize].push(RecFact { id: r, name: format!("r{kind}_{r}"), terms: vec![t] });
         }
+        // one more record per kind is listed directly on a whole stretch of the lineage (every second / third /
+        // fourth node, up to 170 of them: more than 100 direct terms, ancestors and descendants side by side)
+        if recs > 0 && depth >= 200 {
+            let step = 2 + kind;
+            let mut terms: Vec<u32> = (0..170.min(depth / step)).map(|i| id_of(3 + i * step)).collect();
+            terms.sort_unstable();
+            for t in &terms {
+                f.ann_calls.push(AnnCall { kind: kind as u8, rec: recs + 1, term: Some(*t), alt_name: None });
+            }
+            f.recs[kind as usize].push(RecFact { id: recs + 1, name: format!("r{kind}_wide"), terms });
+        }
     }
     f
 }
